@@ -136,7 +136,9 @@ def install(with_bm=False):
   pd.data_pb2 = d
   name = "paranoid_crypto.lib.randomness_tests.cc_util.pybind.berlekamp_massey"
   if with_bm or name not in sys.modules:
-    bm = types.ModuleType(name)
+    # the module object is updated IN PLACE: berlekamp_massey.py binds it at import time, so replacing the entry of
+    # sys.modules after an earlier install() (same pool worker, another bounded check) would leave the stub in use
+    bm = sys.modules.get(name) or types.ModuleType(name)
     if with_bm:
       f = build_bm_shim("clmul")
       bm.LfsrLength = lambda ba, n: f(bytes(ba), n)
